@@ -126,6 +126,18 @@ impl PathSliceList {
         model: Option<bool>,
     ) -> Result<(), TmplError> {
         let br = |w: &mut JsExprWriter<W>| -> Result<(), TmplError> {
+            // the path variable of a `wx:for` item is `null` at run time when the list that was chosen
+            // (by a conditional expression) has no data path
+            let nullable_var = match self.0.first() {
+                Some(PathSlice::ScopeIndex(i)) => match &scopes[*i].lvalue_path {
+                    ScopeVarLvaluePath::Var { var_name, .. } => Some(var_name),
+                    _ => None,
+                },
+                _ => None,
+            };
+            if let Some(var_name) = nullable_var {
+                write!(w, "({}?", var_name)?;
+            }
             write!(w, "[")?;
             let mut write_items = || -> Result<bool, TmplError> {
                 let mut iter = self.0.iter();
@@ -189,6 +201,9 @@ impl PathSliceList {
             write!(w, "]")?;
             if need_slice_1 {
                 write!(w, ".slice(1)")?;
+            }
+            if nullable_var.is_some() {
+                write!(w, ":null)")?;
             }
             Ok(())
         };
